@@ -169,24 +169,25 @@ def sendFrags (c : Conn) (fid fragId count : Nat) (retry : Int) : Nat → List B
     sendFrags (sendType c .appFragment (fragPrefix fragId (1 + i) count ++ f) retry (some (.frag fid i)))
       fid fragId count retry (i + 1) fs
 
+/-- the branch of `send` for payloads above `MAX_PAYLOAD_SIZE` -/
+def sendFragmented (sz : Sizes) (c : Conn) (payload : Bytes) (retry : Int) (cb : Option Nat) : Conn × Option Err :=
+  let fragId := seqInc c.seqFragment
+  if payload.length > sz.maxFragment * maxFragments then
+    -- `build` raises before yielding anything; the (unreferenced) sender object exists
+    ({ c with seqFragment := fragId, fragObjs := c.fragObjs ++ [⟨fragId, retry, cb, [], []⟩] }, some .valueError)
+  else
+    let frags := splitFrags sz.maxPayload sz.maxFragment payload.length payload
+    let fid := c.fragObjs.length
+    let obj : FragSender := ⟨fragId, retry, cb, frags, frags.map (fun _ => none)⟩
+    let c2 := { c with seqFragment := fragId, fragObjs := c.fragObjs ++ [obj] }
+    let c3 := sendFrags c2 fid fragId frags.length (if retry = -1 then 0 else retry) 0 frags
+    ({ c3 with pendingFrags := aset c3.pendingFrags fragId fid }, none)
+
 /-- `ConnectionBase.send(payload, retry, callback)`; returns the new state and the exception, if any -/
 def send (sz : Sizes) (c : Conn) (payload : Bytes) (retry : Int) (cb : Option Nat) : Conn × Option Err :=
   if retry ≠ 0 ∧ retry ≠ 1 ∧ retry ≠ -1 then (c, some .valueError)     -- RetryMode(retry)
   else if c.status ≠ .connected then (c, none)
-  else if payload.length > sz.maxPayload then
-    let fragId := seqInc c.seqFragment
-    let c1 := { c with seqFragment := fragId }
-    if payload.length > sz.maxFragment * maxFragments then
-      -- `build` raises before yielding anything; the (unreferenced) sender object exists
-      ({ c1 with fragObjs := c1.fragObjs ++ [⟨fragId, retry, cb, [], []⟩] }, some .valueError)
-    else
-      let frags := splitFrags sz.maxPayload sz.maxFragment payload.length payload
-      let fid := c1.fragObjs.length
-      let obj : FragSender := ⟨fragId, retry, cb, frags, frags.map (fun _ => none)⟩
-      let c2 := { c1 with fragObjs := c1.fragObjs ++ [obj] }
-      let retry' := if retry = -1 then 0 else retry
-      let c3 := sendFrags c2 fid fragId frags.length retry' 0 frags
-      ({ c3 with pendingFrags := aset c3.pendingFrags fragId fid }, none)
+  else if payload.length > sz.maxPayload then sendFragmented sz c payload retry cb
   else (sendType c .app payload retry (cb.map Cb.user), none)
 
 /-- `ConnectionBase.disconnect(callback)` -/
@@ -452,26 +453,35 @@ def expireFrags (t : Int) : List (Nat × FragRecv) → List (Nat × FragRecv)
     if t - r.ctime > 1024 + 512 * (r.count : Int) then expireFrags t rest
     else (k, r) :: expireFrags t rest
 
+/-- the receiver context after storing one fragment (`FragmentReceiver.receive`), creating the
+    context on the first fragment of an id -/
+def fragUpdate (c : Conn) (t : Int) (mseq : Nat) (frag : Bytes) : FragRecv :=
+  let fragId := beVal (slice 0 2 frag)
+  let index := beVal (slice 2 4 frag)
+  let count := beVal (slice 4 6 frag)
+  let r0 : FragRecv := match aget c.recvFrags fragId with
+    | some r => r
+    | none => ⟨t, List.replicate count none, 0, count⟩
+  { r0 with slots := if 1 ≤ index ∧ index ≤ r0.slots.length then setSlot r0.slots (index - 1) (drop 6 frag) else r0.slots,
+            msgseq := if index = 1 then mseq else r0.msgseq }
+
+/-- the message is complete: deliver it, drop the context, purge expired contexts -/
+def fragDeliver (c : Conn) (t : Int) (fragId : Nat) (r : FragRecv) : Conn :=
+  { c with incoming := c.incoming ++ [(r.msgseq, joinSlots r.slots)],
+           recvFrags := expireFrags t (adel (aset c.recvFrags fragId r) fragId) }
+
+/-- not complete yet: keep the context, purge expired contexts -/
+def fragStore (c : Conn) (t : Int) (fragId : Nat) (r : FragRecv) : Conn :=
+  { c with recvFrags := expireFrags t (aset c.recvFrags fragId r) }
+
 /-- `_recvAppFragment(msgseq, fragment)` at clock value `t` -/
 def recvAppFragment (c : Conn) (t : Int) (mseq : Nat) (frag : Bytes) : Conn × List Event × Option Err :=
   if (take 6 frag).length < 6 then (c, [], some .structError)
   else
     let fragId := beVal (slice 0 2 frag)
-    let index := beVal (slice 2 4 frag)
-    let count := beVal (slice 4 6 frag)
-    let msg := drop 6 frag
-    let r0 : FragRecv := match aget c.recvFrags fragId with
-      | some r => r
-      | none => ⟨t, List.replicate count none, 0, count⟩
-    let slots := if 1 ≤ index ∧ index ≤ r0.slots.length then setSlot r0.slots (index - 1) msg else r0.slots
-    let r1 := { r0 with slots := slots, msgseq := if index = 1 then mseq else r0.msgseq }
-    let rf := aset c.recvFrags fragId r1
-    if slotsComplete r1.slots then
-      let payload := joinSlots r1.slots
-      ({ c with incoming := c.incoming ++ [(r1.msgseq, payload)],
-                recvFrags := expireFrags t (adel rf fragId) },
-       [.deliver r1.msgseq payload], none)
-    else ({ c with recvFrags := expireFrags t rf }, [], none)
+    let r := fragUpdate c t mseq frag
+    if slotsComplete r.slots then (fragDeliver c t fragId r, [.deliver r.msgseq (joinSlots r.slots)], none)
+    else (fragStore c t fragId r, [], none)
 
 /-- hook for the three handshake message types (base class: log only) -/
 structure Role where
@@ -511,26 +521,37 @@ inductive Ret | accepted | rejected | raised (e : Err)
 
 def drop1 (c : Conn) : Conn × List Event × Ret := ({ c with dropped := c.dropped + 1 }, [.dropped], .rejected)
 
+/-- the hello an endpoint without a key expects -/
+def expectedHello (c : Conn) : PType := if c.isServer then .clientHello else .serverHello
+
+/-- repaired gate: before a key exists only the single expected hello is processed -/
+def gateUnkeyed (c : Conn) (pkt : Packet) : Bool :=
+  (keyed c.key).isNone && (pkt.hdr.count != 1 || pkt.hdr.ptype != expectedHello c)
+
+/-- repaired gate: a datagram older than the receive window is dropped like a duplicate -/
+def stale (c : Conn) (seq : Nat) : Bool :=
+  c.bfPkt.cur != 0 && decide (Seq.diff c.bfPkt.cur (seq : Int) > (c.bfPkt.nbits : Int))
+
+/-- the part of `_recv_datagram` after the datagram was decoded and found new -/
+def accept (R : Role) (c : Conn) (t : Int) (h : Header) (pkt : Packet) (bf : Seq.BitField) :
+    Conn × List Event × Ret :=
+  let c1 := { c with bfPkt := bf, received := c.received + 1, lastRecv := t }
+  let r2 := handleAckBits c1 h
+  let r3 := recvMessages R r2.1 t pkt.msgs
+  (r3.1, r2.2 ++ r3.2.1, match r3.2.2 with | none => .accepted | some err => .raised err)
+
 /-- `_recv_datagram(hdr, datagram)` at clock value `t` -/
 def recvDatagram (C : Crypto) (R : Role) (c : Conn) (t : Int) (h : Header) (d : Bytes) :
     Conn × List Event × Ret :=
   match fromBytes C h c.key d with
   | .error _ => drop1 c
   | .ok pkt =>
-    if (keyed c.key).isNone ∧
-       (pkt.hdr.count ≠ 1 ∨ pkt.hdr.ptype ≠ (if c.isServer then PType.clientHello else PType.serverHello)) then
-      drop1 c
-    else if c.bfPkt.cur ≠ 0 ∧ Seq.diff c.bfPkt.cur (pkt.hdr.seq : Int) > (c.bfPkt.nbits : Int) then
-      drop1 c
+    if gateUnkeyed c pkt then drop1 c
+    else if stale c pkt.hdr.seq then drop1 c
     else
       match c.bfPkt.insert (pkt.hdr.seq : Int) with
       | .error _ => drop1 c
-      | .ok bf =>
-        let c1 := { c with bfPkt := bf, received := c.received + 1, lastRecv := t }
-        let (c2, e2) := handleAckBits c1 h
-        match recvMessages R c2 t pkt.msgs with
-        | (c3, e3, none) => (c3, e2 ++ e3, .accepted)
-        | (c3, e3, some err) => (c3, e2 ++ e3, .raised err)
+      | .ok bf => accept R c t h pkt bf
 
 /-- `timedout(timeout)` at clock value `t` -/
 def timedOut (c : Conn) (t : Int) (timeout : Int) : Bool := decide (t - c.lastRecv ≥ timeout)
